@@ -41,6 +41,49 @@ def fbigToFloatBase (k : IntoConsts) (site : String) (W B : Nat) (m : Float.Mode
     | .error e => some (.error e)
     | .ok (bits, fl) => some (.ok (bits, andThenFlag rr.2 fl))
 
+/-! ## round 6 (/repo 1349a4b): the range test in front of every `to_f32 / to_f64` -/
+
+/-- `Repr::exponent_out_of_range(&self, max_exp, min_exp)` (float/src/convert.rs): `Some(true)` — the magnitude is at
+    least `2^max_exp`; `Some(false)` — it is below `2^min_exp`; `None` — undecided.  The decision text is the
+    REGENERATED one (`Dashu.Gen.Conv.exponent_out_of_range`, Tie A). -/
+def exponentOutOfRange (r : FRepr) (maxExp minExp : Int) : Option Bool :=
+  Dashu.Gen.Conv.exponent_out_of_range (decide (r.signif = 0)) r.exp (bitLen r.signif.natAbs) maxExp minExp
+
+/-- the arms of `match self.repr.exponent_out_of_range(128 | 1024, -149 - 24 | -1074 - 53)` in `FBig::to_fNN` /
+    `Repr::to_fNN`: `Some(true)` ⇒ `Inexact(±∞, AddOne | SubOne)`, `Some(false)` ⇒ `Inexact(±0, NoOp)`, `None` ⇒ go on.
+    (The literal arguments are those of `into_fNN_internal`: `Props.C06.conv_constants_regenerated`.) -/
+def rangeExit (k : IntoConsts) (r : FRepr) : Option (Nat × Option Rounding) :=
+  match exponentOutOfRange r k.infExp k.zeroExp with
+  | some true => some (if r.signif < 0 then (k.F.signBit + k.F.infBits, some .SubOne) else (k.F.infBits, some .AddOne))
+  | some false => some ((if r.signif < 0 then k.F.signBit else 0), some .NoOp)
+  | none => none
+
+/-- `FBig::<R, 2>::to_f32 / to_f64`, `Repr::<2>::to_f32 / to_f64` AS THEY ARE since 1349a4b: the range test, then the
+    general path (`fbigToFloat`: `repr_round_ref` + `into_fNN_internal`).  `Props.C06.fbig_to_float_range_exit_unobservable`:
+    equal to the general path for every normalised input — the test only keeps the `isize` arithmetic in range. -/
+def fbigToFloatCode (k : IntoConsts) (m : Float.Mode) (c : Coarse) (r : FRepr) : Except PanicKind (Nat × Option Rounding) :=
+  match rangeExit k r with
+  | some x => .ok x
+  | none => fbigToFloat k m c r
+
+/-- the same for a base `B ≠ 2`: the range test comes BEFORE `convert_base`, so an exponent beyond the format never
+    reaches the base conversion (neither its exact branches nor `ln`/`exp`) -/
+def fbigToFloatBaseCode (k : IntoConsts) (site : String) (W B : Nat) (m : Float.Mode) (r : FRepr) :
+    Option (Except PanicKind (Nat × Option Rounding)) :=
+  match rangeExit k r with
+  | some x => some (.ok x)
+  | none => fbigToFloatBase k site W B m r
+
+/-- `TryFrom<FBig<R, 2>> for fNN` / `TryFrom<Repr<2>>` on the code as it is (they call `to_fNN`) -/
+def fbigTryToFloatCode (k : IntoConsts) (c : Coarse) (r : FRepr) : Except PanicKind (Except ConvErr Nat) :=
+  if FRepr.isInfinite r then .ok (.error .lossOfPrecision)
+  else
+    match fbigToFloatCode k .halfEven c r with
+    | .error e => .error e
+    | .ok (bits, none) => .ok (.ok bits)
+    | .ok (bits, some _) =>
+      if bits % k.F.signBit = k.F.infBits then .ok (.error .outOfBounds) else .ok (.error .lossOfPrecision)
+
 /-! ## `TryFrom<RBig> for f32/f64`: which error a refusal carries -/
 
 /-- SPEC (value level) of `TryFrom<RBig> for fNN` INCLUDING the kind of a refusal, for a rational in lowest terms;
